@@ -19,6 +19,8 @@ STRAT_VALUES = [0.0, G, 0.25, 0.5, 1.0, 3.0, "nan", "inf", "-inf", -1.0, -0.0, 1
 STRAT_VALUES_HUGE = STRAT_VALUES + ["hugeint", 7, 10**30]
 OVERSHOOT = [0.0, 0.0, 0.0, G, 0.25, 1.0]
 EXC_FAMILIES = ("plain", "runtime", "os", "frozen", "empty", "group")
+# ordinary exceptions a caller callback may die with (the type can matter: handlers written for one type catch another by accident)
+CB_EXCS = ["RuntimeError", "ValueError", "KeyError", "OverflowError", "ZeroDivisionError", "TypeError", "AttributeError", "OSError"]
 SPECIALS_ALL = ["abort", "cancel", "kbd", "sysexit", "nested_exh", "nested_open", "genexit", "base"]
 
 
@@ -230,6 +232,8 @@ def rand_scenario(
         # what kind of object the caller's callbacks are: plain functions, or callable objects that are empty (falsy) and unhashable
         "cb_shape": "empty" if rng.random() < 0.2 else "plain",
         "hook_edits_tags": rng.random() < 0.25,  # the metric hook writes a label into the tags dict it receives
+        "warnings_as_errors": rng.random() < 0.15,  # the process escalates warnings to errors
+        "op_cm": rng.random() < 0.2,  # the operation works inside a generator-based context manager / ExitStack
     }
 
 
